@@ -365,6 +365,8 @@ func (c15) Assumptions() []string {
 
 func (c15) Gates(tier string, m map[string]int64) []rt.Gate {
 	return []rt.Gate{
+		rt.GateMin("BETWEEN with arithmetic trees as bounds", m, "between_with_arithmetic_bounds", 200),
+		rt.GateMin("filters naming a backquoted select field (printed form re-parsed under the same field list)", m, "named_field_filters", 200),
 		rt.GateMin("flat sequences compared", m, "flat_compared", 1000),
 		rt.GateMin("random trees compared", m, "tree_compared", 1000),
 		rt.GateMin("re-parse fixpoints checked", m, "fixpoints", 2000),
@@ -398,7 +400,107 @@ func (k c15) Run(c *rt.Ctx) {
 		return
 	}
 	for i := 0; i < c15Block; i++ {
-		k.randomTree(c)
+		switch c.R.Intn(6) {
+		case 0:
+			k.betweenBounds(c)
+		case 1:
+			k.namedFieldFixpoint(c)
+		default:
+			k.randomTree(c)
+		}
+	}
+}
+
+// betweenBounds: BETWEEN whose bounds are arithmetic trees of every shape,
+// printed with minimal parentheses (a bound may begin with a parenthesis and go on).
+func (k c15) betweenBounds(c *rt.Ctx) {
+	r := c.R
+	var arith func(d int) *gen.Node
+	arith = func(d int) *gen.Node {
+		if d == 0 || r.Chance(1, 4) {
+			return gen.Int(int64(r.Range(1, 9)))
+		}
+		return gen.Bin([]string{"+", "-", "*", "/"}[r.Intn(4)], arith(d-1), arith(d-1))
+	}
+	var left *gen.Node
+	switch r.Intn(3) {
+	case 0:
+		left = gen.Call("int", gen.Value())
+	case 1:
+		left = gen.Call("strlen", gen.Key())
+	default:
+		left = gen.Bin("+", gen.Call("int", gen.Value()), gen.Int(1))
+	}
+	tree := gen.Between(left, arith(r.Range(1, 3)), arith(r.Range(1, 3)))
+	if r.Chance(1, 3) {
+		tree = gen.And(tree, gen.Bin("^=", gen.Key(), gen.Str("k")))
+	}
+	if r.Chance(1, 4) {
+		tree = gen.Not(tree)
+	}
+	style := gen.Style{Paren: 1, R: r.Fork(), Case: r.Chance(1, 2), Tight: r.Chance(1, 4)}
+	c.Rec.Inc("between_with_arithmetic_bounds")
+	c.Rec.Inc("tree_compared")
+	k.compare(c, tree, style.Print(tree), "tree")
+}
+
+// namedFieldFixpoint: the printed form of a filter that uses a select-field
+// name - also names that look like words of the language - re-parses, under
+// the same field list, to the same tree and prints the same again.
+func (k c15) namedFieldFixpoint(c *rt.Ctx) {
+	r := c.R
+	rec := c.Rec
+	name := []string{"value", "key", "limit", "order", "in", "and", "true", "inf", "nan", "select", "where", "as", "x-y", "a b", "uv", "F1", "between", "group", "1a"}[r.Intn(19)]
+	head := "select key, upper(value) as `" + name + "`, strlen(key) as n9 where "
+	ref := "`" + name + "`"
+	filter := []string{ref + " = 'A' & key ^= 'k'", "key ^= 'k' and " + ref + " in ('K1', 'K3')", "!(" + ref + " ^= 'a') | n9 > 2", "lower(" + ref + ") + 'x' != " + ref, ref + " between 'a' and 'b' or n9 * 2 >= strlen(" + ref + ")"}[r.Intn(5)]
+	parse := func(q string) (kvql.Expression, string) {
+		var e kvql.Expression
+		errs := ""
+		func() {
+			defer func() {
+				if p := recover(); p != nil {
+					errs = fmt.Sprint("panic: ", p)
+				}
+			}()
+			stmt, err := kvql.NewParser(q).Parse()
+			if err != nil {
+				errs = err.Error()
+				return
+			}
+			e = stmt.(*kvql.SelectStmt).Where.Expr
+		}()
+		return e, errs
+	}
+	q := head + filter
+	rec.Eval(1)
+	rec.Inc("named_field_filters")
+	rec.DistinctS(q)
+	e1, err1 := parse(q)
+	if err1 != "" {
+		if strings.HasPrefix(err1, "panic") {
+			c.Violation("parser-panics", "named field", func() rt.D { return rt.D{"query": q, "panic": err1} })
+			return
+		}
+		rec.NotJudged("statement with a backquoted field name is refused: " + firstWords(stripPos(err1)))
+		return
+	}
+	canon := e1.String()
+	q2 := head + canon
+	e2, err2 := parse(q2)
+	rec.Eval(1)
+	rec.Inc("fixpoints")
+	cl := "named field / " + map[bool]string{true: "name like a word of the language", false: "other name"}[strings.IndexAny(name, "- ") < 0 && name != "uv" && name != "F1" && name != "1a"]
+	if err2 != "" {
+		c.Violation("canonical-form-does-not-reparse", cl+" / "+firstWords(stripPos(err2)), func() rt.D { return rt.D{"query": q, "canonical": canon, "reparse_query": q2, "error": err2} })
+		return
+	}
+	if a, b := canonAST(e1), canonAST(e2); a != b {
+		c.Violation("canonical-form-reparses-differently", cl+" / "+c15FirstDiff(a, b), func() rt.D { return rt.D{"query": q, "canonical": canon, "tree": a, "reparsed_tree": b} })
+		return
+	}
+	if e2.String() != canon {
+		c.Violation("canonical-form-not-a-fixpoint", cl, func() rt.D { return rt.D{"query": q, "canonical": canon, "second_rendering": e2.String()} })
 	}
 }
 
